@@ -18,6 +18,7 @@ import (
 	"strconv"
 	"strings"
 	"sync"
+	"time"
 
 	"github.com/spf13/cobra"
 	apierrors "k8s.io/apimachinery/pkg/api/errors"
@@ -372,16 +373,8 @@ func runE2E(in []int64) []int64 {
 			panic(err)
 		}
 	}
-	if jobCtl == nil {
-		jobCtl = jc.VerifCmdNewController(vc, kubefake.NewSimpleClientset(), 3)
-	} else {
-		jobCtl.VerifCmdReset(vc)
-	}
-	if queueCtl == nil {
-		queueCtl = qc.NewVerifController(vc, kubefake.NewSimpleClientset(), -1)
-	} else {
-		queueCtl.Reset(vc, kubefake.NewSimpleClientset(), -1)
-	}
+	getJobCtl(vc)
+	getQueueCtl(vc, -1)
 	var reqs []int64
 	nreq := 0
 	for _, p := range persisted {
@@ -430,7 +423,190 @@ func runE2E(in []int64) []int64 {
 var (
 	jobCtl   *jc.VerifCmdController
 	queueCtl *qc.VerifController
+	// infVC is the client both controllers are constructed on: their own informer
+	// factories (with the filtered Command handlers registered by Initialize) watch it.
+	// The other streams swap in a per-case client with Reset and never start the informers.
+	infVC      *vcfake.Clientset
+	infStarted bool
+	infCase    int
 )
+
+func getJobCtl(vc *vcfake.Clientset) *jc.VerifCmdController {
+	if infVC == nil {
+		infVC = vcfake.NewSimpleClientset()
+	}
+	if jobCtl == nil {
+		jobCtl = jc.VerifCmdNewController(infVC, kubefake.NewSimpleClientset(), 3)
+	}
+	jobCtl.VerifCmdReset(vc)
+	return jobCtl
+}
+
+func getQueueCtl(vc *vcfake.Clientset, mx int) *qc.VerifController {
+	if infVC == nil {
+		infVC = vcfake.NewSimpleClientset()
+	}
+	if queueCtl == nil {
+		queueCtl = qc.NewVerifController(infVC, kubefake.NewSimpleClientset(), mx)
+	}
+	queueCtl.Reset(vc, kubefake.NewSimpleClientset(), mx)
+	return queueCtl
+}
+
+var apiVersions = []string{"", batch.SchemeGroupVersion.String(), sch.SchemeGroupVersion.String(),
+	"scheduling.incubator.k8s.io/v1alpha1", "scheduling.volcano.sh/v1alpha1", "batch.volcano.sh/v1beta1"}
+var kinds = []string{"", "Job", "Queue", "PodGroup"}
+
+// ---------- sel 4: Commands with foreign / malformed targets through the real informers ----------
+
+func runFilter(in []int64) []int64 {
+	n := int(in[0])
+	getJobCtl(nil)
+	getQueueCtl(nil, -1)
+	if !infStarted {
+		stop := make(chan struct{}) // lives as long as the process
+		queueCtl.StartInformers(stop)
+		jobCtl.VerifCmdStartInformers(stop)
+		infStarted = true
+		// warm-up: WaitForCacheSync returns after the initial LIST; objects created before the
+		// reflector's WATCH is established would only arrive with a later relist (out of order).
+		// Create probe Commands until one pair comes through the watch promptly.
+		jobCtl.VerifCmdReset(infVC)
+		queueCtl.Reset(infVC, kubefake.NewSimpleClientset(), -1)
+		for k := 0; ; k++ {
+			if k > 200 {
+				panic("the informers never delivered a probe command")
+			}
+			pj, pq := fmt.Sprintf("warm-j%d", k), fmt.Sprintf("warm-q%d", k)
+			infVC.BusV1alpha1().Commands("ns1").Create(ctx, &bus.Command{ObjectMeta: metav1.ObjectMeta{Namespace: "ns1", Name: pj},
+				TargetObject: &metav1.OwnerReference{APIVersion: apiVersions[1], Kind: "Job", Name: "n0"}}, metav1.CreateOptions{})
+			infVC.BusV1alpha1().Commands("ns1").Create(ctx, &bus.Command{ObjectMeta: metav1.ObjectMeta{Namespace: "ns1", Name: pq},
+				TargetObject: &metav1.OwnerReference{APIVersion: apiVersions[2], Kind: "Queue", Name: "n0"}}, metav1.CreateOptions{})
+			seen := false
+			for t := 0; t < 100 && !seen; t++ {
+				time.Sleep(500 * time.Microsecond)
+				okQ, okJ := false, false
+				for _, c := range queueCtl.CQ.Items() {
+					okQ = okQ || c.Name == pq
+				}
+				for _, nm := range jobCtl.VerifCmdPendingNames() {
+					okJ = okJ || nm == "ns1/"+pj
+				}
+				seen = okQ && okJ
+			}
+			infVC.BusV1alpha1().Commands("ns1").Delete(ctx, pj, metav1.DeleteOptions{})
+			infVC.BusV1alpha1().Commands("ns1").Delete(ctx, pq, metav1.DeleteOptions{})
+			if seen {
+				break
+			}
+		}
+		time.Sleep(20 * time.Millisecond) // let a late relist of the probes drain before the first case
+	}
+	jobCtl.VerifCmdReset(infVC)
+	queueCtl.Reset(infVC, kubefake.NewSimpleClientset(), -1)
+	infCase++
+	pre := fmt.Sprintf("c%d-", infCase)
+	infVC.ClearActions()
+	type made struct{ ns, name string }
+	var cmds []made
+	mk := func(name string, tk, tv, ns, tn, act int64) {
+		c := &bus.Command{ObjectMeta: metav1.ObjectMeta{Namespace: fmt.Sprintf("ns%d", ns), Name: name}, Action: string(actions[act])}
+		if tk != 0 {
+			c.TargetObject = &metav1.OwnerReference{APIVersion: apiVersions[tv], Kind: kinds[tk], Name: fmt.Sprintf("n%d", tn)}
+		}
+		if _, err := infVC.BusV1alpha1().Commands(c.Namespace).Create(ctx, c, metav1.CreateOptions{}); err != nil {
+			panic(err)
+		}
+		cmds = append(cmds, made{c.Namespace, name})
+	}
+	for i := 0; i < n; i++ {
+		f := in[1+5*i : 6+5*i]
+		mk(fmt.Sprintf("%si%d", pre, i), f[0], f[1], f[2], f[3], f[4])
+	}
+	// sentinels: informer notifications are ordered, so once they sit in the command
+	// queues every earlier Command has passed (or not passed) the filters
+	mk(pre+"sj", 1, 1, 1, 0, 1)
+	mk(pre+"sq", 2, 2, 1, 0, 3)
+	deadline := time.Now().Add(20 * time.Second)
+	for {
+		okQ, okJ := false, false
+		for _, c := range queueCtl.CQ.Items() {
+			if c.Name == pre+"sq" {
+				okQ = true
+			}
+		}
+		for _, nm := range jobCtl.VerifCmdPendingNames() {
+			if nm == "ns1/"+pre+"sj" {
+				okJ = true
+			}
+		}
+		if okQ && okJ {
+			break
+		}
+		if time.Now().After(deadline) {
+			panic("the informers did not deliver the sentinel commands")
+		}
+		time.Sleep(200 * time.Microsecond)
+	}
+	// the job controller shards its requests over several worker queues: read them back
+	// after every processed Command to keep the order of execution
+	var jreqs []apis.Request
+	for jobCtl.VerifCmdProcessNext() {
+		jreqs = append(jreqs, jobCtl.VerifCmdRequests()...)
+	}
+	for queueCtl.ProcessNextCommand() {
+	}
+	// Delete calls per Command
+	dels := map[string]int{}
+	for _, a := range infVC.Actions() {
+		if da, ok := a.(k8stesting.DeleteAction); ok && a.GetResource().Resource == "commands" {
+			dels[da.GetNamespace()+"/"+da.GetName()]++
+		}
+	}
+	out := []int64{int64(n)}
+	for i := 0; i < n; i++ {
+		_, err := infVC.BusV1alpha1().Commands(cmds[i].ns).Get(ctx, cmds[i].name, metav1.GetOptions{})
+		out = append(out, int64(dels[cmds[i].ns+"/"+cmds[i].name]), vh.B(err == nil))
+	}
+	if dels["ns1/"+pre+"sj"] != 1 || dels["ns1/"+pre+"sq"] != 1 {
+		panic("a sentinel command was not deleted exactly once")
+	}
+	enc := func(reqs []apis.Request, job bool) []int64 {
+		// the last request is the sentinel's
+		if len(reqs) == 0 || (job && reqs[len(reqs)-1].JobName != "n0") || (!job && reqs[len(reqs)-1].QueueName != "n0") {
+			panic(fmt.Sprintf("the sentinel command was not executed last: job=%v requests=%+v deletes=%v", job, reqs, dels))
+		}
+		reqs = reqs[:len(reqs)-1]
+		o := []int64{int64(len(reqs))}
+		for _, r := range reqs {
+			if r.Event != bus.CommandIssuedEvent {
+				panic("request without CommandIssued event")
+			}
+			if job {
+				o = append(o, idOf("ns", r.Namespace), idOf("n", r.JobName), actionCode(string(r.Action)))
+			} else {
+				if r.Namespace != "" || r.JobName != "" {
+					panic("queue request carries job fields")
+				}
+				o = append(o, 0, idOf("n", r.QueueName), actionCode(string(r.Action)))
+			}
+		}
+		return o
+	}
+	out = append(out, -101)
+	out = append(out, enc(jreqs, true)...)
+	out = append(out, -102)
+	var qreqs []apis.Request
+	for _, r := range queueCtl.Q.Items() {
+		qreqs = append(qreqs, *r)
+	}
+	out = append(out, enc(qreqs, false)...)
+	// leave the shared client clean
+	for _, c := range cmds {
+		infVC.BusV1alpha1().Commands(c.ns).Delete(ctx, c.name, metav1.DeleteOptions{})
+	}
+	return out
+}
 
 var cmdGVR = bus.SchemeGroupVersion.WithResource("commands")
 
@@ -467,11 +643,7 @@ func runCtl(in []int64) []int64 {
 	var reqs []apis.Request
 	var triggered func() int
 	if ctrl == 1 {
-		if jobCtl == nil {
-			jobCtl = jc.VerifCmdNewController(vc, kubefake.NewSimpleClientset(), 3)
-		} else {
-			jobCtl.VerifCmdReset(vc)
-		}
+		getJobCtl(vc)
 		process, pending, deliver = jobCtl.VerifCmdProcessNext, jobCtl.VerifCmdPending, jobCtl.VerifCmdDeliver
 		var rmu sync.Mutex
 		triggered = func() int {
@@ -481,11 +653,7 @@ func runCtl(in []int64) []int64 {
 			return len(reqs)
 		}
 	} else {
-		if queueCtl == nil {
-			queueCtl = qc.NewVerifController(vc, kubefake.NewSimpleClientset(), mx)
-		} else {
-			queueCtl.Reset(vc, kubefake.NewSimpleClientset(), mx)
-		}
+		getQueueCtl(vc, mx)
 		process, pending = queueCtl.ProcessNextCommand, queueCtl.CQ.Len
 		deliver = func(c *bus.Command) {
 			if !qc.IsQueueReference(c.TargetObject) {
@@ -598,6 +766,8 @@ func run(sel int, in []int64) []int64 {
 		return runCtl(in)
 	case 3:
 		return runE2E(in)
+	case 4:
+		return runFilter(in)
 	}
 	panic("unknown selector")
 }
@@ -743,9 +913,52 @@ func genE2E(rng *vh.Rng, n int, emit func(id string, sel int, in []int64, kind s
 	}
 }
 
+func genFilter(rng *vh.Rng, n int, emit func(id string, sel int, in []int64, kind string, nontrivial bool, desc any)) {
+	for i := 0; i < n; i++ {
+		r := rng.Fork()
+		k := r.Range(1, 5)
+		in := []int64{int64(k)}
+		foreign := 0
+		for j := 0; j < k; j++ {
+			var tk, tv int64
+			switch x := (i + j) % 10; {
+			case x < 3: // exactly what vcctl writes
+				tk = int64(r.Range(1, 2))
+				tv = tk
+			case x == 3: // right Kind, another API group
+				tk = int64(r.Range(1, 2))
+				tv = 3
+			case x == 4: // right Kind, another version of the right group
+				tk = int64(r.Range(1, 2))
+				tv = 6 - tk // Job: batch.volcano.sh/v1beta1 (5), Queue: scheduling.volcano.sh/v1alpha1 (4)
+			case x == 5: // right group/version, another Kind
+				tv = int64(r.Range(1, 2))
+				tk = 3
+			case x == 6: // empty apiVersion
+				tk = int64(r.Range(1, 2))
+				tv = 0
+			case x == 7: // no TargetObject
+				tk, tv = 0, 0
+			case x == 8: // Kind of one controller, group/version of the other
+				tk = int64(r.Range(1, 2))
+				tv = 3 - tk
+			default:
+				tk, tv = int64(r.Range(0, 3)), int64(r.Range(0, 5))
+			}
+			if !(tk == tv && (tk == 1 || tk == 2)) {
+				foreign++
+			}
+			// target names from a small pool: a foreign Command often names an object an exact one names too
+			in = append(in, tk, tv, int64(r.Range(1, 3)), int64(r.Range(1, 4)), int64(r.Range(1, 4)))
+		}
+		emit(fmt.Sprintf("filter-%d", i), 4, in, "informer-filter", foreign > 0, map[string]any{"commands": k, "foreign": foreign})
+	}
+}
+
 func main() {
 	vh.Harness{Run: run, Laws: laws, Gen: func(rng *vh.Rng, n int, emit func(id string, sel int, in []int64, kind string, nontrivial bool, desc any)) {
 		gen(rng, n, emit)
 		genE2E(rng.Fork(), n/2+12, emit)
+		genFilter(rng.Fork(), n/3+20, emit)
 	}}.Main()
 }
